@@ -24,7 +24,7 @@ from typedpy.structures import (AbstractStructure, FinalStructure, keys_of, Type
 from inspect import Parameter
 
 from .. import dump, gen
-from .construct import make_ctx, err_name, rename_inline
+from .construct import make_ctx, err_name, rename_inline, fix_accepts
 
 BUILTIN_BASES = {"Structure": Structure, "ImmutableStructure": ImmutableStructure,
                  "FinalStructure": FinalStructure, "AbstractStructure": AbstractStructure}
@@ -32,6 +32,7 @@ FIELD_NAMES = ["a", "b", "c", "d", "e1", "f_2"]
 KW_DEFAULT_KINDS = {"integer", "number", "float", "string", "boolean", "enumLit", "enumCls", "seqAny", "seqOf",
                     "seqPos", "setAny", "setOf", "tupleOf", "tuplePos", "mapAny", "mapOf", "anything"}
 NO_DEFAULT_KINDS = {"struct", "noneF"}
+SCALAR_KINDS = {None, "integer", "number", "float", "string", "boolean", "enumLit", "enumCls", "noneF", "anything"}
 ATTR_VALUES = {"bool": True, "list": [1, 2], "dict": {"k": 1}, "bareType": int, "generic": list[int], "other": 5,
                "union": int | str}   # PEP 604 union of bare types (types.UnionType)
 CLASS_FORM = {"integer": Integer, "string": String, "boolean": typedpy.Boolean, "number": typedpy.Number,
@@ -1021,7 +1022,19 @@ def ctor_probes(cls, env, vg):
             kws.append(base + [[vg.rng.choice(sorted(cls._constants)), 1]])
     elif base is None and not req:
         kws.append([])
-    return kws
+    # a None nested inside a container value (an explicit None attribute of an inline structure ...) touches instance
+    # equality of the value-level model (C01/C02's subject), not class definition: keep None at the top level only
+    return [kw for kw in kws if not any(nested_none(v) for _, v in kw)]
+
+
+def nested_none(v, top=True):
+    if v is None:
+        return not top
+    if isinstance(v, list):
+        return any(nested_none(x, False) for x in v)
+    if isinstance(v, dict):
+        return any(nested_none(x, False) for x in v.values())
+    return False
 
 
 def ctor_run(cls, env, vg):
@@ -1418,6 +1431,9 @@ def line(case, impl):
             s["names"] = effective_names(st)
         if st["op"] == "define":
             s["src"] = dict(st["src"], entries=effective_entries(st["src"]["entries"]))
+            if any(e.get("decl", {}).get("k") not in SCALAR_KINDS for _, e in s["src"]["entries"]):
+                # nested class references: `isinstance` accepts the class itself (flat hierarchies inside declarations)
+                s["src"] = fix_accepts(copy.deepcopy(s["src"]))
         if st["op"] == "derive" and "ok" in r and r["ok"]:
             s["impl"] = {"fields": r["obs"]["fields"], "required": r["obs"]["required"]}
         if st["op"] in ("define", "derive") and r.get("struct"):
